@@ -37,6 +37,7 @@ ASSUMPTIONS = [
     'npartition == n1d//2 > 1 with nthread > 1 is excluded here (C07)',
     'get_field is inverted through its documented normalisation overdens = field/mean - 1; with weights only the shape (proportionality) is compared',
 ]
+DT = {'f4': np.float32, 'f8': np.float64}
 CHUNK = 1
 WORKERS = 12
 ENVS = {'bchk': {'NUMBA_BOUNDSCHECK': '1'}}
@@ -61,8 +62,16 @@ def tconfigs(n1d):
         if n1d in (6, 8):
             out.append((nth, 2))       # 2 <= n1d//3
         if n1d in (2, 3, 6):
-            out.append((nth, None))    # default resolves to <= n1d//3 (0 or 2 stripes)
+            out.append((nth, None))    # default resolves to a single stripe or to 2 stripes
+    if n1d in (2, 3):
+        # two stripes narrower than a TSC cloud: the two passes are sequential, so a tree may accept it (it is
+        # accepted since the C07 fix) or refuse it with ValueError; if accepted the deposit must be right
+        out.append((2, 2))
     return out
+
+
+def maybe_rejected(c):
+    return c['e'] == 'tp' and c['nth'] > 1 and c['npart'] == 2 and c['shape'][c['coord']] in (2, 3)
 
 
 def bounds(tier):
@@ -154,6 +163,22 @@ def _cases(tier, seed):
                     ncell = shape[0] * shape[1] * shape[2]
                     if (Q and ncell == 8 and box == bxs[0]) or (not Q and (ncell <= 27 or shape[0] != shape[1]) and box == bxs[(si + offk) % 3]):
                         yield _case(e='tp', shape=shape, pdt=pdt, box=box, offk=offk, sweep='cube')
+    # ------------------------------------------------------------------ A'. the same with a box size whose reciprocal cell size
+    # rounds so that (Box + half cell) * (g / Box) lands ABOVE g + 1/2 in the position dtype
+    from vf import c06_ref as R
+    for si, shape in enumerate(TSC_SHAPES):
+        for pdt in ('f4', 'f8'):
+            box = R.overshoot_box(max(shape), DT[pdt])
+            if box is None:
+                continue
+            for offk in (2,) if Q else (1, 2):
+                for a in range(3):
+                    yield _case(e='tp', shape=shape, pdt=pdt, box=box, offk=offk, sweep=f'axis{a}m', acc=(a == 1), rb=1)
+                yield _case(e='tp', shape=shape, pdt=pdt, box=box, offk=offk, sweep='red', rb=1)
+                yield _case(e='tp', shape=shape, pdt=pdt, box=box, offk=offk, sweep='red', wrap=False, wk='2.5', rb=1)
+                yield _case(e='ts', shape=shape, pdt=pdt, box=box, offk=offk, sweep='red', wrap=False, rb=1)
+                if shape[0] == shape[1]:
+                    yield _case(e='gft', shape=shape, pdt=pdt, box=box, offk=offk, sweep='mini', rb=1)
     # ------------------------------------------------------------------ B. _tsc_scatter directly, cic_serial
     for si, shape in enumerate(TSC_SHAPES):
         bxs = boxes_for(shape)
@@ -299,9 +324,12 @@ def _ps():
     return _M['ps']
 
 
-DT = {'f4': np.float32, 'f8': np.float64}
 WVAL = {'1': 1.0, '2.5': 2.5, '0': 0.0}
 MIX = [1.0, 2.5, 0.0, 0.5, 3.0]
+
+
+class Rejected(Exception):
+    """tsc_parallel refused a thread/partition setting it is allowed to refuse (acceptance is C07's subject)"""
 
 
 class Ctx:
@@ -339,6 +367,14 @@ class Ctx:
             return 0.0
         return (self.nadds + 1) * float(np.finfo(self.gt).eps) * (np.abs(self.base) + hi)
 
+    def klass(self, rf, i):
+        """input class of a failing particle, from its exact coordinates: is it within rounding of the top half-cell edge
+        g + 1/2 of an axis that has only two cells (where cells ix-1, ix, ix+1 reach index 2g)?"""
+        for a, g in enumerate(self.shape):
+            if g == 2 and abs(float(rf.u[a][i]) - (g + 0.5)) <= 1e-5:
+                return ':top-edge-of-2-cell-axis'
+        return ''
+
     def prob(self, sig, msg):
         sig = f'{self.e}:{sig}'
         if sig not in self.problems:
@@ -369,14 +405,14 @@ class Ctx:
     def grid(self, buf, i):
         return buf[i, self.G:self.G + self.ncell].reshape(self.shape)
 
-    def check_guard(self, buf, P0, what):
+    def check_guard(self, buf, P0, what, rf=None):
         g = np.concatenate([buf[:, :self.G], buf[:, self.G + self.ncell:]], axis=1)
         ok = np.signbit(g) & (g == 0)
         if not ok.all():
             i = int(np.nonzero(~ok.all(axis=1))[0][0])
             j = int(np.nonzero(~ok[i])[0][0])
             j = j - self.G if j < self.G else j - self.G + self.ncell
-            self.prob('oob-guard', f'{what}: write outside the grid (flat offset {j} of a {self.ncell}-cell grid, value {g[i][~ok[i]][0]!r}) '
+            self.prob('oob-guard' + (self.klass(rf, i) if rf is not None else ''), f'{what}: write outside the grid (flat offset {j} of a {self.ncell}-cell grid, value {g[i][~ok[i]][0]!r}) '
                                    f'for particle {P0[i].tolist() if P0.ndim == 2 else P0.tolist()}')
 
     def call(self, p, grid, w):
@@ -385,8 +421,13 @@ class Ctx:
         e = self.e
         self.extra['calls'] += 1
         if e == 'tp':
-            r = _M['tsc'].tsc_parallel(p, grid, self.box, weights=w, nthread=c['nth'], wrap=self.wrap, npartition=c['npart'],
-                                       sort=c['sort'], coord=c['coord'], offset=self.offset)
+            try:
+                r = _M['tsc'].tsc_parallel(p, grid, self.box, weights=w, nthread=c['nth'], wrap=self.wrap, npartition=c['npart'],
+                                           sort=c['sort'], coord=c['coord'], offset=self.offset)
+            except ValueError as ex:
+                if maybe_rejected(c) and 'npartition' in str(ex):
+                    raise Rejected(str(ex))
+                raise
             if isinstance(grid, np.ndarray) and r is not grid:
                 self.prob('return', 'tsc_parallel did not return the supplied grid')
             return r
@@ -398,7 +439,7 @@ class Ctx:
             return grid
         raise AssertionError(e)
 
-    def deposit_singles(self, pos, w, what='single'):
+    def deposit_singles(self, pos, w, what='single', rf=None):
         """each particle alone -> out (n,*shape) float64 = grid - base ; raw (n,*shape) in grid dtype"""
         n = len(pos)
         c = self.c
@@ -421,10 +462,11 @@ class Ctx:
             for i in range(n):
                 self.call(P[i:i + 1], self.grid(buf, i), None if w is None else w[i:i + 1])
         except (IndexError, SystemError) as ex:
-            self.prob('oob-boundscheck', f'{what}: {type(ex).__name__}: {ex} for particle {pos[i].tolist()}'
+            self.prob('oob-boundscheck' + (self.klass(rf, i) if rf is not None else ''),
+                      f'{what}: {type(ex).__name__}: {ex} for particle {[repr(float(x)) for x in pos[i]]}'
                                          + (f' weight {w[i]}' if w is not None else ''))
             return None, None
-        self.check_guard(buf, pos, what)
+        self.check_guard(buf, pos, what, rf)
         self.check_pos(pos, P)
         raw = buf[:, self.G:self.G + self.ncell].reshape((n,) + self.shape)
         return raw.astype(np.float64) - self.base, raw
@@ -463,8 +505,8 @@ class Ctx:
     def check_singles(self, pos, w, what='single', ref=None):
         """deposit each particle alone and evaluate the whole per-deposit oracle. returns (out, Ref, raw)"""
         n = len(pos)
-        out, raw = self.deposit_singles(pos, w, what)
         rf = ref or self.make_ref(pos, w)
+        out, raw = self.deposit_singles(pos, w, what, rf)
         if out is None:
             return None, rf, None
         self.extra['deposits'] += n
@@ -493,7 +535,7 @@ class Ctx:
                 exact = bool(rf.clean[sl][i]) and not gf
                 outside = bool((hi[i][bad[i]] == 0).all())
                 sub = 'stray-deposit' if outside else ('kernel-exact' if exact else 'kernel')
-                self.prob(sub, f'{what}: deposit differs from the {self.kind.upper()} kernel: '
+                self.prob(sub + self.klass(rf, s + i), f'{what}: deposit differs from the {self.kind.upper()} kernel: '
                           + self.fmt(pos[s + i], None if w is None else w[s + i], o[i], ref_[i], tol[i]))
             # conservation
             tot = o.reshape(len(o), -1).astype(np.longdouble).sum(axis=1).astype(np.float64)
@@ -503,14 +545,14 @@ class Ctx:
             tb = ~(np.abs(tot - W[sl]) <= ttol)
             if tb.any():
                 i = int(np.nonzero(tb)[0][0])
-                self.prob('total', f'{what}: grid total {tot[i]!r} != weight {W[sl][i]!r} for particle {pos[s + i].tolist()}')
+                self.prob('total' + self.klass(rf, s + i), f'{what}: grid total {tot[i]!r} != weight {W[sl][i]!r} for particle {pos[s + i].tolist()}')
             # non-negativity (exact), on the raw grid where nothing was pre-filled
             if raw is not None and not self.c['acc']:
                 r = raw[sl]
                 neg = ~(r >= 0) & (W[sl] >= 0)[:, None, None, None]
                 if neg.any():
                     i = int(np.nonzero(neg.reshape(len(o), -1).any(axis=1))[0][0])
-                    self.prob('negative', f'{what}: negative/NaN cell {r[i][neg[i]][0]!r} for particle {pos[s + i].tolist()} weight {W[sl][i]}')
+                    self.prob('negative' + self.klass(rf, s + i), f'{what}: negative/NaN cell {r[i][neg[i]][0]!r} for particle {pos[s + i].tolist()} weight {W[sl][i]}')
         nz = W != 0
         if nz.any():
             near = rf.nearest()[nz]
@@ -784,6 +826,9 @@ def run_one(case):
             sample = run_multi(cx)
         else:
             raise AssertionError(mode)
+    except Rejected:
+        cx.extra['configurations_refused_by_tsc_parallel'] = 1
+        cx.nt.clear()
     except (IndexError, SystemError) as ex:
         if not cx.bchk:
             raise
